@@ -5,8 +5,8 @@ V = os.path.dirname(os.path.dirname(os.path.abspath(__file__)))
 
 CHECKS = {
  "C05": dict(
-   text="Theorems in Rocq (rocq/Props/C05.v, 19 statements, axiom-free) state every amount/percentage operation of the model Num/Amount.v as the exact rational rounded half away from zero at the documented precision, plus the lossless laws; the model is tied to num/*.go by running both on the same ~750k cases (exhaustive small grid, constructed ties, random up to 2^52) and any in-domain difference is reported as the failing input.",
-   note="Trusted: Coq kernel, extraction (ExtrOcamlBasic), OCaml driver, Go harness, python comparison. Modelled not verified: float64 hardware path of Multiply/Divide/Rescale is covered by the correspondence inside the 2^52 domain; AmountFromFloat64/Float64/formatter not covered.",
+   text="Theorems in Rocq (rocq/Props/C05.v, 34 statements) state every amount/percentage operation of the model Num/Amount.v as the exact rational rounded half away from zero at the documented precision, plus the lossless laws; a second, statement-by-statement model of the Go code (Num/AmountImpl.v: int64 wrap-around, IEEE binary64 by Flocq, math.Round, int64 conversion) is proved equal to it whenever operands and exact intermediates are below 2^52 and rescaling divisors at most 10^63 (Num/AmountExact.v; core lemma: a binary64 quotient with |numerator| < 2^52 never crosses a half). Both models are tied to num/*.go by running all three on the same cases (exhaustive small grid, constructed ties, random up to 2^52, ~750k; the implementation model on a 75k sample and on a boundary stream 2^52..2^63, MinInt64, zero divisors, exponents to 70); any in-domain difference is reported as the failing input.",
+   note="Trusted: Coq kernel, the four classical axioms of Coq's Reals library (through Flocq), extraction (ExtrOcamlBasic), OCaml driver, Go harness, python comparison. Outside the domain Go's int64(NaN/Inf/out-of-range) is platform-defined and only counted. AmountFromFloat64/Float64/formatter not covered.",
    technique="Rocq theorems over a Gallina model + differential correspondence (extracted OCaml vs Go)",
    design="7 (C05)"),
  "C12": dict(
